@@ -6,6 +6,7 @@ import os
 
 import common
 import libprops as L
+import cliprops as K
 from common import log
 
 
@@ -71,6 +72,17 @@ REGISTRY = {
                 "partial applications, fuzz) on one file; after each undo content, existence flag and permissions must equal the snapshot taken "
                 "before the corresponding apply; a panic is a violation. Non-trivial: at least one hunk applied.",
         "floor": floors(("stack", 1000), ("partial", 100), ("create", 100), ("delete", 100), ("mode-change", 100), ("fuzz>0", 100)),
+    },
+    "C05": {
+        "level_text": "thousands of real pushes of generated series whose expected tree after k patches is known by construction; exit status, applied-patches and the complete tree (paths, bytes, modes, directories) are compared",
+        "level_note": "trusted: wsgen ground truth (version histories rendered by lib/udiff.py, validated against GNU diff/patch in selftest); umask 022",
+        "technique": "runtime monitoring: ground-truth oracle over tree snapshots of real CLI runs",
+        "parts": [K.cli_c05],
+        "rule": "series of 1-8 patches over 1-6 files (modify/create/delete/rename/chmod/truncate, several entries per file, all header dialects, -pN, -R), "
+                "a failing patch at a random position (poisoned hunks in a random subset of its files, missing file, create-over-existing, delete-mismatch, "
+                "misordered hunks) x backup always/onfail/never/default x threads 1/2/4/16 x -q/default/-v x prior applied state x goal -a/N. "
+                "Non-trivial: the failing patch is not the first of the run, or it has several file entries; distinct by (workspace shape, configuration).",
+        "floor": floors(("failing-patch-not-first", 100), ("multi-file-failing-patch", 100), ("runs-applying-everything", 100)),
     },
     "C11": {
         "level_text": 'parser and follow-up application run on bounded-exhaustive line sequences, numeric extremes, mutants; panics caught, allocations counted, aborts/hangs attributed per case',
